@@ -320,6 +320,10 @@ def correspondence(rng, tier):
     dres = differential(rng, dn, dist)
     for f in dres['failing']:
         mismatches.append({'kind': 'original-vs-restored', 'case': f})
+    fb, fb_obs = fixed_block()
+    for f in fb:
+        mismatches.append({'kind': 'fixed-block original-vs-restored', 'case': f})
+    dist['fixed_block:observations'] = fb_obs
     extra = {}
     if tier == 'thorough':
         extra = thorough_extras(rng)
@@ -472,6 +476,8 @@ def differential(rng, n, dist=None, wheres=WHERES, formats=ALLFORMATS, focus=Fal
 def search(rng, tier, broken):
     n = 250 if tier == 'quick' else 3000
     tried = 0
+    fb, _ = fixed_block()
+    if fb: return {'tried': 3, 'failing': fb[0]}
     for i in range(n):
         seed = rng.getrandbits(32); fmt = rng.choice(['pickle', 'json', 'xml', 'legacy']); via = arch.choose_via(rng, fmt)
         where = rng.choice(WHERES)
@@ -480,6 +486,59 @@ def search(rng, tier, broken):
         if r is not None and not is_known(r):
             return {'tried': tried, 'failing': r}
     return {'tried': tried, 'failing': None}
+
+# ---------------------------------------------------------------- fixed block (every tier, no random choice)
+def fixed_obs(z, zi, r, x):
+    """budgets / components (default and intermediate=True) and u_components of a continued calculation on an elementary complex z,
+    a declared complex intermediate zi and a declared real intermediate r, plus the `complex` link of every component node"""
+    from GTC import core, reporting
+    g = arch.guarded; hx = arch.hx
+    w = zi * (0.5 + 1j) + r
+    v = core.magnitude(zi) * r + x
+    q = (zi + z) * r
+    out = {}
+    def rows(y, **kw): return [(repr(a.label), hx(a.u), repr(a.uid)) for a in reporting.budget(y, trim=0, **kw)]
+    def comps(y, **kw): return [(repr(a.uid), hx(a.u)) for a in reporting.components(y, trim=0, **kw)]
+    for n, y in (('w', w), ('v', v), ('q', q), ('zi', zi), ('r', r)):
+        out['budget:' + n] = g(lambda: rows(y)); out['ibudget:' + n] = g(lambda: rows(y, intermediate=True))
+        out['components:' + n] = g(lambda: comps(y)); out['icomponents:' + n] = g(lambda: comps(y, intermediate=True))
+        out['value:' + n] = (hx(y.x), g(lambda: hx(y.u)), g(lambda: hx(y.df)))
+    for n, y in (('w', w), ('v', v), ('q', q)):
+        for m, a in (('zi', zi), ('zi.real', zi.real), ('zi.imag', zi.imag), ('r', r), ('z', z), ('x', x)):
+            out['ucomp:%s,%s' % (n, m)] = g(lambda: hx(reporting.u_component(y, a)))
+            out['sens:%s,%s' % (n, m)] = g(lambda: hx(reporting.sensitivity(y, a)))
+    for n, p in (('zi.real', zi.real), ('zi.imag', zi.imag), ('z.real', z.real), ('z.imag', z.imag), ('r', r), ('x', x)):
+        c = getattr(p._node, 'complex', 'ABSENT')
+        out['complex-link:' + n] = (type(c).__name__, repr(c))
+        out['node:' + n] = (repr(p.uid), repr(p.label), hx(p._node.u), hx(p._node.df), p.is_elementary, p.is_intermediate)
+    out['label:zi'] = repr(zi.label); out['label:z'] = repr(z.label)
+    return out
+
+def fixed_block():
+    """for each of pickle / JSON / XML: an archive holding an elementary complex, a result()-declared complex built from it, a real
+    intermediate and an elementary real; restored in a fresh Context; the observations of fixed_obs must equal the original session's"""
+    from GTC import core, persistence as pr
+    failing = []; nobs = 0
+    for fmt, dump, load in (('pickle', pr.dumps, pr.loads), ('json', pr.dumps_json, pr.loads_json), ('xml', pr.dumps_xml, pr.loads_xml)):
+        new_context(7101)
+        z = core.ucomplex(1.5 - 0.5j, (0.09, 0.012, 0.012, 0.16), 6, label='z')
+        x = core.ureal(2.0, 0.25, 8, label='x')
+        zi = core.result(z * x + z * z, label='zi')
+        r = core.result(x * x + z.real * 0.5, label='r')
+        want = fixed_obs(z, zi, r, x)
+        ar = pr.Archive(); ar.add(z=z, zi=zi, r=r, x=x)
+        try:
+            doc = dump(ar)
+            new_context(7102)
+            a2 = load(doc)
+            got = fixed_obs(a2['z'], a2['zi'], a2['r'], a2['x'])
+        except Exception as ex:
+            failing.append({'fixed_block': fmt, 'raised': repr(ex), 'explained_by': None}); continue
+        nobs += len(want)
+        if got != want:
+            bad = sorted(k for k in want if want[k] != got.get(k))
+            failing.append({'fixed_block': fmt, 'differs': [(k, want[k], got.get(k)) for k in bad[:8]], 'explained_by': None})
+    return failing, nobs
 
 # ---------------------------------------------------------------- thorough tier: real fresh interpreters, shipped reference files
 CHILD = r'''
@@ -602,6 +661,10 @@ def kf_C07_nan_dof_same_session():
 def replay(payload):
     print(json.dumps(payload.get('broken'), indent=1, default=str)[:3000])
     f = payload.get('failing_input')
+    if f and 'fixed_block' in f:
+        fb, _ = fixed_block()
+        print('replayed the fixed block on the implementation:', 'STILL FAILS %s' % json.dumps(fb, default=str)[:1500] if fb else 'passes now')
+        return 1 if fb else 0
     if f and 'seed' in f and f.get('where') in ('fresh', 'fresh_lo', 'same'):
         r, _ = diff_one(f['seed'], f['ctx'], f['fmt'], f['via'], f['where'], f.get('focus', False))
         print('replayed failing input on the implementation:', 'STILL FAILS %s' % json.dumps(r, default=str)[:1500] if r else 'passes now')
